@@ -319,9 +319,17 @@ class ClientDriver:
             self.drop()
             self.load()
 
-    def create(self, config):
+    def create(self, config, prelude=None):
         Service = self.w.m['cservice'].Service
         self.svc = self._call(lambda: Service())
+        self.prelude_outcome = None
+        if prelude is not None:
+            # the same client object is first offered a configuration that cannot be instantiated (it must refuse it)
+            try:
+                self._call(self.svc.handle_create_config, prelude)
+                self.prelude_outcome = 'accepted'
+            except Exception as e:
+                self.prelude_outcome = 'refused:' + type(e).__name__
         self.sid = self._call(self.svc.handle_create_config, config)
         self.w.client_sids.append(self.sid)
         self.w.sids.append(self.sid)
